@@ -433,7 +433,12 @@ func (e *Env) c17ValidInf() *c17Inf {
 		}
 		return new(big.Int).Mul(e.Mag(200), big.NewInt(int64(1+e.Pick(1000)))).String()
 	}
-	return &c17Inf{Denom: e.c17ValidDenom(), A: nonneg(), R: r.String(), C: nonneg(), BT: bt.String(), MV: nonneg(), Staking: st.String(), Community: cp.String(), Enable: e.Chance(0.5)}
+	// max_variance is kept below 2^80 (raw) so that the provision stays computable (the validator demands it)
+	mv := "0"
+	if e.Chance(0.7) {
+		mv = new(big.Int).Mul(e.Mag(70), big.NewInt(int64(1+e.Pick(1000)))).String()
+	}
+	return &c17Inf{Denom: e.c17ValidDenom(), A: nonneg(), R: r.String(), C: nonneg(), BT: bt.String(), MV: mv, Staking: st.String(), Community: cp.String(), Enable: e.Chance(0.5)}
 }
 
 func (e *Env) c17ValidCsr() *c17Csr {
@@ -506,6 +511,81 @@ func (e *Env) c17Boundary(w *c17World) []c17Op {
 		addInf("r="+v, func(p *c17Inf) { p.R = v })
 		addInf("bonding_target="+v, func(p *c17Inf) { p.BT = v })
 	}
+	// provisionComputable (validateExponentialCalculation after the repair of the C18 finding): for several
+	// settings of the other fields, the largest accepted value of one field (found by bisection on the real
+	// Params.Validate, which is monotone in that field) and its successor, plus fixed huge values
+	huge := new(big.Int).Sub(new(big.Int).Lsh(big.NewInt(1), 315), big.NewInt(1))
+	bisect := func(base *c17Inf, set func(p *c17Inf, v string)) *big.Int {
+		okAt := func(x *big.Int) bool {
+			q := *base
+			set(&q, x.String())
+			ok := false
+			func() {
+				defer func() { recover() }()
+				ok = c17InfParams(&q).Validate() == nil
+			}()
+			return ok
+		}
+		lo, hi := big.NewInt(0), new(big.Int).Set(huge)
+		if !okAt(lo) {
+			return nil
+		}
+		if okAt(hi) {
+			return hi
+		}
+		for new(big.Int).Sub(hi, lo).Cmp(big.NewInt(1)) > 0 { // invariant: okAt(lo), !okAt(hi)
+			mid := new(big.Int).Rsh(new(big.Int).Add(lo, hi), 1)
+			if okAt(mid) {
+				lo = mid
+			} else {
+				hi = mid
+			}
+		}
+		return lo
+	}
+	ten := func(n int64) string { return new(big.Int).Exp(big.NewInt(10), big.NewInt(n), nil).String() }
+	settings := []struct {
+		name string
+		f    func(p *c17Inf)
+	}{
+		{"default-like", func(p *c17Inf) { p.A, p.R, p.C, p.BT, p.MV = ten(25), ten(17), "0", new(big.Int).Mul(big.NewInt(8), new(big.Int).Exp(big.NewInt(10), big.NewInt(17), nil)).String(), "0" }},
+		{"variance-3", func(p *c17Inf) { p.A, p.C, p.BT, p.MV = ten(40), ten(30), ten(18), new(big.Int).Mul(big.NewInt(3), one).String() }},
+		{"tiny-target", func(p *c17Inf) { p.A, p.C, p.BT, p.MV = ten(20), "1", "1", ten(18) }},
+		{"zero-a-c", func(p *c17Inf) { p.A, p.C, p.BT, p.MV = "0", "0", ten(17), ten(18) }},
+	}
+	fields := []struct {
+		name string
+		set  func(p *c17Inf, v string)
+	}{
+		{"a", func(p *c17Inf, v string) { p.A = v }},
+		{"c", func(p *c17Inf, v string) { p.C = v }},
+		{"max_variance", func(p *c17Inf, v string) { p.MV = v }},
+	}
+	for _, st := range settings {
+		for _, fl := range fields {
+			base := e.c17ValidInf()
+			st.f(base)
+			st, fl := st, fl
+			vals := []string{new(big.Int).Lsh(big.NewInt(1), 314).String(), huge.String(), ten(80), ten(58 + 18), ten(59 + 18)}
+			if m := bisect(base, fl.set); m != nil {
+				vals = append(vals, m.String(), new(big.Int).Add(m, big.NewInt(1)).String(), new(big.Int).Sub(m, big.NewInt(1)).String())
+			}
+			for _, v := range vals {
+				v := v
+				q := *base
+				fl.set(&q, v)
+				out = append(out, c17Op{Kind: "inflation", Authority: w.gov, Label: "computable:" + st.name + ":" + fl.name + "=" + v, Inf: &q})
+			}
+		}
+	}
+	// the smallest bonding targets with a fixed variance: max_variance / bonding_target is the first quotient
+	for _, bt := range []string{"1", "2", "10", ten(9)} {
+		for _, mv := range []string{ten(18), ten(40), ten(58), ten(76), ten(94)} {
+			bt, mv := bt, mv
+			addInf("computable:bonding_target="+bt+",max_variance="+mv, func(p *c17Inf) { p.A, p.C, p.BT, p.MV = ten(24), "0", bt, mv })
+		}
+	}
+
 	half := new(big.Int).Quo(one, big.NewInt(2))
 	for _, pr := range [][2]string{{"0", c17S(one)}, {c17S(one), "0"}, {c17S(half), c17S(half)}, {c17S(half), c17Add(half, 1)}, {c17S(half), c17Add(half, -1)},
 		{"-1", c17Add(one, 1)}, {c17Add(one, 1), "-1"}, {"0", "0"}, {c17S(one), c17S(one)}, {"1", c17Add(one, -1)}, {"0", c17Add(one, 1)}, {"0", c17Add(one, -1)},
